@@ -459,6 +459,11 @@ func runC19(c *c19Case, scratch string, stats map[string]int64) (v *core.DriverV
 // ---- generator ----
 
 func genField(r *core.Rng, ty int, sep string) string {
+	if r.Chance(0.01) {
+		// a byte-order mark glued to the front of a field (files concatenated
+		// by hand, exports of spreadsheet programs): part of the field's text
+		return "\ufeff" + genField(r, ty, sep)
+	}
 	quoteIfNeeded := func(s string) string {
 		if strings.ContainsAny(s, sep+"\"\r\n") || r.Chance(0.1) {
 			return "\"" + strings.ReplaceAll(s, "\"", "\"\"") + "\""
